@@ -12,7 +12,7 @@ from vf.refpeg import Ref
 
 PROPERTY = 'C03'
 RULE = ('specification-first generation: a precedence table (1-3 levels; left levels with shape direct / aliased before / aliased after '
-        '(mutual) / named / optional-prefixed; right-recursive and unary-prefix levels; optional parenthesised atom) printed as a grammar; '
+        '(mutual) / named / optional-prefixed / split (each operator alternative in its own rule, optional cut after the operator, a postfix operator that starts like the binary one) / twin (two directly left-recursive rules that also call each other: no rule on all cycles); right-recursive and unary-prefix levels; optional parenthesised atom) printed as a grammar; '
         'inputs: generated operator/operand strings with and without spaces plus near misses (trailing / doubled operator, unbalanced '
         'parenthesis), and in the enumeration shard all lexeme strings up to a bound for fixed family grammars; parsed from every level rule '
         'and alias rule. non-trivial = the input has >= 2 operators of one left-recursive level or a right-recursive tail after a '
@@ -137,6 +137,8 @@ FAMILY = [
     dict(levels=[dict(kind='left', ops=['+'], rule='e0', shape='alias_before'), dict(kind='left', ops=['*'], rule='e1', shape='alias_after')], paren=True, stmt=None),
     dict(levels=[dict(kind='left', ops=['+'], rule='e0', shape='alias_before', alias='a0')], paren=False, stmt=None),
     dict(levels=[dict(kind='left', ops=['+'], rule='e0', shape='alias_after', alias='a0')], paren=False, stmt=None),
+    dict(levels=[dict(kind='left', ops=['+', '-'], rule='e0', shape='split', cuts=[True, False], postfix='++')], paren=False, stmt=None),
+    dict(levels=[dict(kind='left', ops=['+'], rule='e0', shape='twin')], paren=False, stmt=None),
 ]
 
 
@@ -154,6 +156,8 @@ def starts_of(spec):
         out.append(lv['rule'])
         if lv.get('shape') in ('alias_before', 'alias_after'):
             out.append(lv.get('alias', lv['rule'] + 'x'))
+        if lv.get('shape') == 'twin':
+            out.append(lv['rule'] + 'w')
     return out
 
 
@@ -254,4 +258,12 @@ def _f_c03_a(case, detail):
     return False
 
 
-EXCLUSIONS = {'F-C03-a': _f_c03_a}
+def _f_c03_b(case, detail):
+    """two left-recursive rules that are both leaders and call each other in left position ('twin' level): the inner leader's
+    result, computed while the outer seed was still failing/short, stays cached while the outer seed grows"""
+    if detail.get('bucket') not in ('length', 'accept', 'tree'):
+        return False
+    return any(lv.get('shape') == 'twin' for lv in case['spec']['levels']) and any(op in case['input'] for op in ('.', '::', '[]'))
+
+
+EXCLUSIONS = {'F-C03-a': _f_c03_a, 'F-C03-b': _f_c03_b}
